@@ -7,6 +7,7 @@ is calling it on `encodeSpec v` (= `parse_value(t).to_vec()` by C01_layout).
 The 2^24 bound is real: see `C11_sniff_false_huge` (known finding D21).
 -/
 import JsonbModel.Proofs.TextEquiv4
+import JsonbModel.Proofs.TextEquiv5
 
 namespace Jsonb.Props
 open Jsonb JV
@@ -134,6 +135,44 @@ theorem C11_concat_bin_text {t2 : Bytes} {v1 v2 : JV} (hg : goodTop v1 = true) (
 theorem C11_delete_by_index_any {t : Bytes} {v : JV} (h : TextOf t v)
     (i : Int) (hi : -2147483648 ≤ i ∧ i ≤ 2147483647) (buf : Bytes) :
     T.deleteByIndex t i buf = T.deleteByIndex (encodeSpec v) i buf := deleteByIndex_text_any h i hi buf
+
+/-! ### the remaining public functions (Functions/Text2.lean: every sniffing site of functions.rs is modelled) -/
+section
+variable {t : Bytes} {v : JV} (h : TextOf t v)
+include h
+theorem C11_path_match (jp : JsonPath) : T.pathMatch t jp = T.pathMatch (encodeSpec v) jp := pathMatch_text h jp
+theorem C11_exists_any_keys (keys : List Bytes) :
+    T.existsAnyKeys t keys = T.existsAnyKeys (encodeSpec v) keys := existsAnyKeys_text h keys
+theorem C11_object_each : T.objectEach t = T.objectEach (encodeSpec v) := objectEach_text h
+theorem C11_array_values : T.arrayValues t = T.arrayValues (encodeSpec v) := arrayValues_text h
+theorem C11_is_array : T.isArray t = T.isArray (encodeSpec v) := isArray_text h
+theorem C11_is_object : T.isObject t = T.isObject (encodeSpec v) := isObject_text h
+theorem C11_is_null : T.isNull t = T.isNull (encodeSpec v) := isNull_text h
+theorem C11_is_boolean : T.isBoolean t = T.isBoolean (encodeSpec v) := isBoolean_text h
+theorem C11_is_number : T.isNumber t = T.isNumber (encodeSpec v) := isNumber_text h
+theorem C11_is_string : T.isString t = T.isString (encodeSpec v) := isString_text h
+theorem C11_as_i64 : T.asI64 t = T.asI64 (encodeSpec v) := asI64_text h
+theorem C11_as_u64 : T.asU64 t = T.asU64 (encodeSpec v) := asU64_text h
+theorem C11_is_i64 : T.isI64 t = T.isI64 (encodeSpec v) := isI64_text h
+theorem C11_is_u64 : T.isU64 t = T.isU64 (encodeSpec v) := isU64_text h
+theorem C11_is_f64 : T.isF64 t = T.isF64 (encodeSpec v) := isF64_text h
+theorem C11_to_bool : T.toBool t = T.toBool (encodeSpec v) := toBool_text h
+theorem C11_to_i64 : T.toI64 t = T.toI64 (encodeSpec v) := toI64_text h
+theorem C11_to_u64 : T.toU64 t = T.toU64 (encodeSpec v) := toU64_text h
+/-- the same f64 (a NaN, which no text can denote, would come back canonical) -/
+theorem C11_as_f64 : (T.asF64 t).map (Option.map F64.canon) = T.asF64 (encodeSpec v) := asF64_text h
+theorem C11_to_serde_json_object : T.toSerdeJsonObject t = T.toSerdeJsonObject (encodeSpec v) :=
+  toSerdeJsonObject_text h
+theorem C11_delete_by_keypath (kp : List KeyPath) (hk : kpOK kp) (buf : Bytes) :
+    T.deleteByKeypath t kp buf = T.deleteByKeypath (encodeSpec v) kp buf := deleteByKeypath_text h kp hk buf
+/-- `to_string` / `to_pretty_string` return a text argument as it is; the rendering of its
+encoding is another text denoting the same document (the property's "text renderings that
+denote the same document") -/
+theorem C11_to_string (fmt : Nat → Bytes) (pretty : Bool) (hu : validUtf8 t = true) (hok : fmtOK fmt v) :
+    ∃ text v', T.toStringFn fmt pretty t = .ok t ∧ parseValue t = .ok v ∧
+      T.toStringFn fmt pretty (encodeSpec v) = .ok text ∧ Strict.parse text = some v' ∧
+      Spec.valEq v' v = true ∧ (Driver.allUnsigned v = true → v' = v) := toString_text h fmt pretty hu hok
+end
 
 /-- `RawJsonb`-style binary input is kept as it is by `parse_lazy_value` -/
 theorem C11_lazy_value_bin (v : JV) (hs : topCount v < 16777216) :
